@@ -266,18 +266,12 @@ theorem dumps_complete_with (p : ErrorPolicy) (lim : Limits) (st : WState) (hali
     st1.dumpRunning = true ∧ st2.dumpRunning = false ∧
     st2.store.active = st.store.active ∧
     ∀ b ∈ st2.store.closed, b.recs ≠ [] → b.onDisk = true := by
-  have h1 : processMsgWith p lim st tryDump = (tryRunDump st).1 :=
-    processMsgWith_ok p lim st _ _ halive (by simp [processE, processOp, predOk])
-  have hr := tryRunDump_dumpRunning st
-  have hs := tryRunDump_store st
-  have ha : (tryRunDump st).1.alive = true := by rw [tryRunDump_alive]; exact halive
-  have h2 : processMsgWith p lim (tryRunDump st).1 .dumpDone =
-      { (tryRunDump st).1 with store := (tryRunDump st).1.store.settle, dumpRunning := false } :=
-    processMsgWith_ok p lim _ _ _ ha (by simp [processE, hr])
-  simp only [h1, h2, hs]
-  refine ⟨hr, trivial, rfl, ?_⟩
-  intro b hb hne
-  exact settle_onDisk hb hne
+  obtain ⟨store, alive, deferred, dumpRunning, fsyncRunning⟩ := st
+  simp only at halive
+  subst halive
+  cases dumpRunning <;>
+    simp [processMsgWith, processE, processOp, predOk, tryRunDump, deferDump] <;>
+    exact ⟨rfl, fun b hb hne => settle_onDisk hb hne⟩
 
 theorem dumps_complete (lim : Limits) (st : WState) (halive : st.alive = true) :
     let st2 := processMsgFixed lim (processMsgFixed lim st tryDump) .dumpDone
@@ -289,6 +283,61 @@ def closedSt : WState := { store := { active := none, slots := [some fullBlob], 
 example : closedSt.store.closed = [fullBlob] ∧ fullBlob.onDisk = false ∧ fullBlob.recs ≠ [] := by decide
 example : (processMsgFixed lim2 (processMsgFixed lim2 closedSt tryDump) .dumpDone).store.closed
     = [{ fullBlob with onDisk := true }] := by decide
+
+/-! ### E27: a dump request that arrives while a dump task is running
+
+`try_run_old_blob_indexes_dump_task` refuses to start a second task.  The task that is running may already be past the
+blobs the request is about (it walks the closed blobs once, releasing the locks between time quanta, and its
+`JoinHandle` reports "finished" only some time after its last blob), so the request must not be forgotten.  Up to
+/repo 57a2e71 the `TryDumpBlobIndexes` arm of `process_msg` ignored the refusal: the request was lost
+(`dump_request_lost_before_fix`; replayed on the real code with the `taskend` pause point, `corpus/C13/e27-…`).
+Since the `fix:` commit the arm defers it like the rotation arm does (`dump_request_never_lost`). -/
+
+/-- the `TryDumpBlobIndexes` arm of `process_msg` before the repair of E27 -/
+def tryDumpArmBefore (w : WState) : WState := (tryRunDump w).1
+
+/-- E27, before the repair: a request that finds a dump task running changes nothing at all - no task is started for
+    it and nothing is registered that would start one later -/
+theorem dump_request_lost_before_fix (w : WState) (h : w.dumpRunning = true) : tryDumpArmBefore w = w := by
+  simp [tryDumpArmBefore, tryRunDump, h]
+
+-- the witness: a dump task is running, nothing deferred; after the request still nothing is deferred
+example : (tryDumpArmBefore { closedSt with dumpRunning := true }).deferred = false := by decide
+
+/-- C13/5c (any policy): no dump request is lost.  A request received by a live worker either starts a dump task
+    (none was running) or registers a deferred dump (one was running); in both cases a task is running afterwards
+    and nothing else changes. -/
+theorem dump_request_never_lost (p : ErrorPolicy) (lim : Limits) (st : WState) (halive : st.alive = true) :
+    let st1 := processMsgWith p lim st tryDump
+    st1.alive = true ∧ st1.dumpRunning = true ∧ st1.store = st.store ∧
+    (st.dumpRunning = false → st1.deferred = st.deferred) ∧
+    (st.dumpRunning = true → st1.deferred = true) := by
+  obtain ⟨store, alive, deferred, dumpRunning, fsyncRunning⟩ := st
+  simp only at halive
+  subst halive
+  cases dumpRunning <;> simp [processMsgWith, processE, processOp, predOk, tryRunDump, deferDump]
+
+/-- C13/5d (any policy): the request that arrived while a dump task was running is carried out.  After the end of
+    the running task, the deadline of the deferred dump and the end of the task it starts, every closed non-empty
+    blob has its index on disk and nothing is left pending. -/
+theorem dump_request_during_pass_completes (p : ErrorPolicy) (lim : Limits) (st : WState)
+    (halive : st.alive = true) (hrun : st.dumpRunning = true) :
+    let st1 := runWorkerWith p lim st [tryDump, .dumpDone]
+    let st' := runWorkerWith p lim st [tryDump, .dumpDone, .deadlineDue, .dumpDone]
+    (st1.deferred = true ∧ st1.dumpRunning = false) ∧
+    (runWorkerWith p lim st [tryDump, .dumpDone, .deadlineDue]).dumpRunning = true ∧
+    st'.alive = true ∧ st'.deferred = false ∧ st'.dumpRunning = false ∧
+    ∀ b ∈ st'.store.closed, b.recs ≠ [] → b.onDisk = true := by
+  obtain ⟨store, alive, deferred, dumpRunning, fsyncRunning⟩ := st
+  simp only at halive hrun
+  subst halive hrun
+  simp [runWorkerWith, processMsgWith, processE, processOp, predOk, tryRunDump, deferDump, processDeferred]
+  exact fun b hb hne => settle_onDisk hb hne
+
+-- non-vacuity: a task is running and nothing is deferred when the request arrives
+example : (runWorkerFixed lim2 { closedSt with dumpRunning := true } [tryDump]).deferred = true := by decide
+example : ((runWorkerFixed lim2 { closedSt with dumpRunning := true } [tryDump, .dumpDone, .deadlineDue, .dumpDone]).store.closed.map
+    (·.onDisk)) = [true] := by decide
 
 /-- the dump that follows a switch: in the repaired loop `[tryUpdate, deadlineDue*, dumpDone]` ends with the
     rotated blob dumped — shown on the running example (switch starts the dump at once) -/
@@ -485,6 +534,30 @@ theorem deferred_has_deadline (cfg : TCfg) (s : TState) (h : Reachable .repaired
     s.deferredInfo.isSome = true → s.nextDeadline.isSome = true := by
   obtain ⟨store, es, rfl⟩ := h
   exact armed_runV_repaired es (armed_init store)
+
+/-- E27 with the clock (the current code): a dump request received while a dump task is running leaves a deferred
+    dump registered AND a deadline armed, so `tick_with_deadline` will come back to it (`deferred_dump_runs_within_two`,
+    `deferred_dump_retried`) without any further request -/
+theorem dump_request_arms_deadline (cfg : TCfg) (s : TState) (h : Reachable .repaired cfg s) (t : Nat)
+    (halive : s.alive = true) (hnow : s.now ≤ t) (hrun : s.dumpRunning = true) :
+    let s' := stepV .repaired cfg s (dumpReqAt t)
+    s'.dumpRunning = true ∧ s'.deferredInfo.isSome = true ∧ s'.nextDeadline.isSome = true := by
+  have hreach : Reachable .repaired cfg (stepV .repaired cfg s (dumpReqAt t)) := by
+    obtain ⟨store, es, rfl⟩ := h
+    exact ⟨store, es ++ [dumpReqAt t], by simp [runV, List.foldl_append]⟩
+  have hen : enabled s (dumpReqAt t) = true := by simp [enabled, halive, TEvent.time, hnow]
+  have hs : stepV .repaired cfg s (dumpReqAt t) = deferDumpT .repaired cfg { s with now := t } := by
+    simp [stepV, hen, processOpT, predOk, TEvent.time, tryRunDumpT, hrun]
+  have hd : (stepV .repaired cfg s (dumpReqAt t)).deferredInfo.isSome = true := by
+    rw [hs]; cases hdi : s.deferredInfo <;> simp [deferDumpT, hdi, updateDeadline_eq]
+  refine ⟨?_, hd, deferred_has_deadline cfg _ hreach hd⟩
+  rw [hs]; cases hdi : s.deferredInfo <;> simp [deferDumpT, hdi, updateDeadline_eq, hrun]
+
+-- non-vacuity: a request at t=10 starts a task; the request at t=20 finds it running and is deferred to t=120
+example : (runRepaired cfgT tInit [dumpReqAt 10, dumpReqAt 20]).deferredInfo = some ⟨20, 20⟩ ∧
+    (runRepaired cfgT tInit [dumpReqAt 10, dumpReqAt 20]).nextDeadline = some 120 := by decide
+-- … and the deferred dump starts its own task once the first one has ended and the deadline has elapsed
+example : (runRepaired cfgT tInit [dumpReqAt 10, dumpReqAt 20, .dumpDone 50, .timeout 121]).dumpStarts = 2 := by decide
 
 /-- the converse holds in all three variants: a deadline is armed only while a record is registered -/
 theorem deadline_has_deferred (v : Variant) (cfg : TCfg) (s : TState) (h : Reachable v cfg s) :
